@@ -30,7 +30,7 @@ func TestVerif(t *testing.T) {
 			"memory stores on both sides so every shared object is a scheduler object",
 		},
 		Jobs:           jobs,
-		BudgetQuick:    300,
+		BudgetQuick:    360,
 		BudgetThorough: 2400,
 	})
 }
@@ -41,10 +41,15 @@ type scen struct {
 	prepop []int
 	conc   int
 	api    string
+	split  bool // the destination's Push may be slow and end with its context's error (World.SlowPush); faults at dst.Push only
 }
 
 func (s scen) name() string {
-	return fmt.Sprintf("%s/start=%s/prep=%v/conc=%d/%s", s.d.Name, s.d.Nodes[s.start].Name, s.prepop, s.conc, s.api)
+	n := fmt.Sprintf("%s/start=%s/prep=%v/conc=%d/%s", s.d.Name, s.d.Nodes[s.start].Name, s.prepop, s.conc, s.api)
+	if s.split {
+		n += "/push-in-flight"
+	}
+	return n
 }
 
 func jobs(tier string) []driver.Job {
@@ -126,6 +131,17 @@ func jobs(tier string) []driver.Job {
 					}
 				}
 			}
+		}
+	}
+	// a push can be in flight (an upload that hangs until its context is cancelled) when the push of a sibling
+	// fails: the smallest graph with a leaf shared by two manifests, Concurrency 3, faults at the destination's Push only
+	{
+		d := Extra("shared-leaf")
+		s := scen{d: d, start: len(d.Nodes) - 1, conc: 3, api: "graph", split: true}
+		if th {
+			out = append(out, mkJob(s, explore.Bounds{Fault: 2, Dev: 3}, 32)...)
+		} else {
+			out = append(out, mkJob(s, explore.Bounds{Fault: 2, Dev: 2}, 16)...)
 		}
 	}
 	return out
@@ -236,6 +252,10 @@ func (s scen) make(last **World) (func(), func(*vs.Result) *driver.Fail) {
 	d := s.d
 	w := NewWorld(d, 0)
 	w.Faults = true
+	if s.split {
+		w.SlowPush = true
+		w.FaultSites = "dst.Push"
+	}
 	*last = w
 	srcM, dstM := memory.New(), memory.New()
 	all := make([]int, len(d.Nodes))
